@@ -7,7 +7,7 @@ CONSTANTS
   FixD4 = TRUE
   FixD6 = TRUE
   Debug = FALSE
-  MaxB = 128
+  MaxB = 256
   ArgMode = "boundary"
   InitCaps = {0, 3, 4, 28}
 SPECIFICATION MCSpec
